@@ -110,6 +110,7 @@ def run(chk: common.Check, tier: str):
                "mentions exists: no visit_* method for a class that is never dispatched)", rc == 0, out[-2000:])
     r = common.rng("c03-perm")
     cases, descs, jobs, jobmeta = [], [], [], []
+    vcases, vdescs = [], []
     for text in grammar_texts(tier):
         try:
             g0 = A.permuted(text, None)
@@ -137,6 +138,11 @@ def run(chk: common.Check, tier: str):
             chk.sample(desc, 4)
             cases.append(f"({term}, {expected_term(res)})")
             descs.append(desc)
+            if res["kind"] == "ok":
+                gr = sorted(res["graph"].items())
+                vcases.append(f"({clist([k for k, _ in gr], cstr)}, {clist(gr, lambda kv: f'({cstr(kv[0])}, {clist(kv[1], cstr)})')}, "
+                              f"{clist(res['sccs'], lambda c: clist(c, cstr))}, {clist(res['left_rec'], cstr)})")
+                vdescs.append(desc)
             if res["kind"] == "ok" and "start" in g.rules:
                 names = list(A.permuted(text, None).rules)
                 ptext = "\n".join(_rule_text(text, names[i]) for i in perm) + "\n"
@@ -149,6 +155,16 @@ def run(chk: common.Check, tier: str):
                           {"grammar": text, "order_a": list(a[0]), "flags_a": a[1], "order_b": list(b[0]), "flags_b": b[1],
                            "how": "Rule.nullable / left_recursive / leader and first_graph after PythonParserGenerator(g, io)"},
                           True)
+    vbad = common.run_cases(chk, "lrcheck", "From Coq Require Import List String Bool.\nFrom Pegen Require Import Base.StrUtil Analysis.Scc "
+                            "Proofs.SccCheck.\nImport ListNotations. Open Scope string_scope.\n",
+                            "list string * graph string * list (list string) * list string", vcases,
+                            "fun c => let '(vs, g, comps, lr) := c in scc_check string String.eqb g vs comps && "
+                            "lr_check string String.eqb g comps (filter (fun v => vmem string String.eqb v vs) lr)", shard=300)
+    if vbad is not None:
+        chk.oblige(f"instance conditions of the verified checker (C16_checked_components_are_exact / _flags_are_exact) on "
+                   f"{len(vcases)} (grammar, order) cases: the components the real generator computed are the mutual-"
+                   "reachability classes of its first graph and its left_recursive flags are exactly the rules on a cycle",
+                   not vbad, json.dumps([vdescs[i] for i in vbad[:3]]))
     failing = common.run_cases(chk, "kanalysis", PRELUDE, "grammar * eres", cases, OK, shard=200)
     if failing is not None:
         chk.oblige(f"correspondence K-analysis: Analysis/Nullable.v + Scc.v (driven by the extracted tables) agree with "
